@@ -9,23 +9,45 @@ CHECK = {
         "symlink targets are compared up to POSIX equivalence (empty and '.' components dropped, '/..' == '/'), not byte for byte",
         "UploadOutputs may (but need not) fail when a declared output is a special file or lies below a non-directory; otherwise it must succeed",
         "an input root holding a non-directory where a parent directory of an output is needed contradicts the command: CreateParentDirectories may succeed (documented EEXIST tolerance) or fail, but must not touch anything else",
-        "directory listings returned by the UploadableDirectory are sorted by name, as the real implementations do",
+        "directory listings returned by the in-memory UploadableDirectory are sorted by name, as the real implementations do",
+        "LocalBuildExecutor rig: execution time-outs never fire (fake clock); the fake runner creates stdout/stderr like bb_runner; input roots contain no special files",
+        "naive backend: a real local file system under the driver's per-run scratch directory; virtual backend: FUSE handle allocator, case-sensitive names, sorted listings, in-memory file pool",
     ],
     "tests": [
+        # (a) OutputHierarchy against the in-memory tree.
         T("outputs", "TestC10OutputHierarchyModel",
-          {"checks": 60000, "shards": 4, "timeout": 300},
-          {"checks": 600000, "shards": 14, "timeout": 1500}),
+          {"checks": 40000, "shards": 4, "timeout": 300},
+          {"checks": 600000, "shards": 6, "timeout": 1500}),
+        # (a') construction accept/reject and normalised parents only.
         T("outputs", "TestC10PathEscapeDifferential",
-          {"checks": 150000, "shards": 2, "timeout": 300},
-          {"checks": 1500000, "shards": 4, "timeout": 1500}),
+          {"checks": 100000, "shards": 2, "timeout": 300},
+          {"checks": 1500000, "shards": 2, "timeout": 1500}),
         T("outputs", "TestC10PathEscapeExhaustive",
           {"checks": 1, "shards": 1, "timeout": 300},
           {"checks": 1, "shards": 1, "timeout": 600}),
+        # (b) the same through LocalBuildExecutor.Execute (fake runner looks at
+        # the input root when it is invoked).
+        T("outputs", "TestC10LocalBuildExecutor",
+          {"checks": 5000, "shards": 2, "timeout": 300},
+          {"checks": 100000, "shards": 4, "timeout": 1500}),
+        # (c) real build directory implementations as holders of the tree.
+        T("outputs", "TestC10VirtualBuildDirectory",
+          {"checks": 10000, "shards": 2, "timeout": 300},
+          {"checks": 200000, "shards": 2, "timeout": 1500}),
+        T("outputs", "TestC10LocalBuildExecutorVirtual",
+          {"checks": 4000, "shards": 2, "timeout": 300},
+          {"checks": 60000, "shards": 4, "timeout": 1500}),
+        T("outputs", "TestC10NaiveBuildDirectory",
+          {"checks": 600, "shards": 2, "timeout": 300},
+          {"checks": 15000, "shards": 4, "timeout": 1500}),
+        T("outputs", "TestC10LocalBuildExecutorNaive",
+          {"checks": 300, "shards": 2, "timeout": 300},
+          {"checks": 8000, "shards": 4, "timeout": 1500}),
     ],
 }
 META = {
     "text": "Generated search (rapid) over commands and produced file trees against an independent lexical path normaliser and a ground-truth in-memory tree; ActionResult, CAS contents and every Tree (parsed at wire level) are compared with the model. Exploration only: no proof of absence.",
     "design_ref": "6/C10",
-    "note": "Trusts the hand-written in-memory BuildDirectory/CAS fakes and the reference normaliser; list order inside the ActionResult is left free.",
+    "note": "Trusts the hand-written in-memory BuildDirectory/CAS fakes, the package-os read-back of the real file system, the Virtual* read-back of the virtual directory and the reference normaliser; list order inside the ActionResult is left free. Native go-fuzz target FuzzC10PathEscape exists but is not registered (the prebuilt test binary has no coverage instrumentation).",
     "technique": "model-based property testing (rapid) with reference normaliser, wire-level Tree checker and bounded-exhaustive path differential",
 }
